@@ -224,5 +224,42 @@ def advertised_suite(ctx):
                         cls = 'leeway' if lw < need else ('number-window' if kind == 'time' else None)
                     ctx.violation('advertised %s segment %s answers %d at the instant of the manifest' % (kind, local_path(u), rr.status_code),
                                   {'manifest': url, 'now': now.isoformat(), 'url': local_path(u)}, key=cls)
+    # ---- a stream with STORED defaults (Stream.defaults, as the stream-edit page saves them): the manifest applies them and
+    # leaves options equal to the default out of the media URLs, so the segment routes must apply the same stored defaults.
+    # Number addressing, leeway 60 (no known class applies), the oldest / middle / newest segments of every representation
+    with env.app.app_context():
+        st = env.models.Stream.get(directory='bbb')
+        st.defaults = {'timeShiftBufferDepth': 2400}
+        env.models.db.session.commit()
+    for tmpl in (['hand_made.mpd'] if ctx.quick() else ['hand_made.mpd', 'manifest_e.mpd']):
+        secs = rng.choice([3600, 86400 + 11, rng.randint(3000, 10**6)])
+        now = T0 + datetime.timedelta(seconds=secs, microseconds=rng.choice([0, 500000]))
+        url = '/dash/live/bbb/%s?start=2024-01-01T00:00:00Z&leeway=60' % tmpl
+        with Clock(now):
+            r = c.get(url)
+            ctx.count('http:manifest-stored-defaults')
+            if r.status_code != 200:
+                ctx.violation('manifest of a stream with stored defaults answers %d' % r.status_code, {'url': url})
+                continue
+            mpd = Mpd(r.data, 'http://localhost' + url)
+            tsbd = mpd.root.get('timeShiftBufferDepth')
+            if tsbd is None or parse_duration_us(tsbd) != 2400 * 10**6:
+                ctx.dist('stored-defaults:depth-%s' % tsbd)
+            by_rep = {}
+            for a in advertised_urls(mpd, us_since_epoch(now)):
+                if a[0] != 'init':
+                    by_rep.setdefault(a[2]['rep'], []).append(a)
+            for lst in by_rep.values():
+                picks = lst if not ctx.quick() else [lst[i] for i in sorted({1, 2, len(lst) // 4, len(lst) // 2, len(lst) - 1} & set(range(len(lst))))]
+                for kind, u, info in picks:
+                    rr = c.get(local_path(u))
+                    n_req += 1
+                    ctx.count('http:advertised-stored-defaults')
+                    if rr.status_code == 200:
+                        ctx.nontriv((tmpl, secs, u))
+                    else:
+                        ctx.violation('stream with stored defaults %r: advertised %s segment %s answers %d at the instant of the manifest' % (
+                            {'timeShiftBufferDepth': 2400}, kind, local_path(u), rr.status_code),
+                            {'manifest': url, 'now': now.isoformat(), 'url': local_path(u), 'stored_defaults': {'timeShiftBufferDepth': 2400}})
     ctx.oblige('http:advertised-urls-fetched', True, '%d advertised URLs fetched' % n_req)
     env.close()
